@@ -1033,7 +1033,8 @@ public:
       {
          clear(rhs.size());
 
-         if(rhs.size() > 0)
+         // size() is the length of the nonzero memory, which is zero if all vectors are empty and own no memory
+         if(rhs.num() > 0)
          {
             SVSetBaseArray::operator=(rhs);
             set = rhs.set;
@@ -1041,9 +1042,9 @@ public:
             DLPSV* ps;
             DLPSV* newps;
 
-            void* delta0 = &(*(static_cast<SVSetBaseArray*>(this)))[0];
-            void* delta1 = &(*(static_cast<SVSetBaseArray*>(const_cast<SVSetBase<R>*>(&rhs))))[0];
-            ptrdiff_t delta = reinterpret_cast<char*>(delta0) - reinterpret_cast<char*>(delta1);
+            const void* delta0 = SVSetBaseArray::get_const_ptr();
+            const void* delta1 = rhs.SVSetBaseArray::get_const_ptr();
+            ptrdiff_t delta = reinterpret_cast<const char*>(delta0) - reinterpret_cast<const char*>(delta1);
 
             for(ps = rhs.list.first(); ps; ps = rhs.list.next(ps))
             {
@@ -1069,7 +1070,7 @@ public:
       {
          clear(rhs.size());
 
-         if(rhs.size() > 0)
+         if(rhs.num() > 0)
             this->add(rhs);
       }
 
